@@ -71,7 +71,7 @@ PROPS = {
     ),
     'C11': dict(
         level='exploration',
-        quick=dict(runs=[run('TestC11', 120, timeout=400, shrinktime='30s')]),
+        quick=dict(runs=[run('TestC11', 40, timeout=400, shrinktime='30s')]),
         thorough=dict(runs=[run('TestC11', 4000, timeout=3000, shrinktime='120s')]),
         assumptions=['calls that are no-ops by their own documentation (Mkdir of an existing directory, opening an existing file read-write without truncation) may return either way on writable filesystem types; on finalized iso9660/squashfs every listed call must fail',
                      'in-memory state of a filesystem object after a rejected write is not constrained'],
@@ -89,6 +89,13 @@ PROPS = {
         thorough=dict(runs=[run('TestC13', 60000, timeout=1500), run('TestC13Big', 1, shards=1, timeout=1500)]),
         assumptions=['MBR cases use 512-byte sectors only (mbr.Read ignores its sector-size arguments by its own comment)',
                      'on a refused write only containment is checked (no byte outside the partition changes); content equality is demanded for accepted writes'],
+    ),
+    'C14': dict(
+        level='exploration',
+        quick=dict(runs=[run('TestC14', 150, timeout=400, shrinktime='30s')]),
+        thorough=dict(runs=[run('TestC14', 3000, timeout=3000, shrinktime='120s')]),
+        assumptions=['pass B runs in a child process started >= 2.1 s after pass A with TZ=Pacific/Kiritimati (FAT timestamps have 2 s resolution, so a stray time.Now lands in another bucket); at most 400 histories per shard go to pass B',
+                     'histories that themselves fail (judged by C01/C08) are discarded here'],
     ),
     'C15': dict(
         level='fault_enumeration', count_sub_nontrivial=True, crash_is_violation=True, mem_kb=6_000_000,
